@@ -19,7 +19,8 @@ RULE = ("ACL shapes: flat, grouped by remark prefix (blocks of 1..n items), ACLs
         "{0, 1, 10, random, 2^32-1-n*d-1..+1, 2^32-1, 2^32, -1, -5}, step in {-5, 0, 1, 7, 10, 2^31, 2^32-2, 2^32-1, 2^32, 2^40, random}; 8 % one-line objects. judged = "
         "monitor evaluations of outermost calls (normal returns and raises); distinct non-trivial = (class, platform, "
         "shape, start class, step class, outcome)"
-        " Round 4: everything but the numbers compared at the caller's side around every call (nesting, identities, uuids, notes, names).")
+        " Round 4: everything but the numbers compared at the caller's side around every call (nesting, identities, uuids, notes, names)."
+        " Round 5: a block that is itself an Acl object.")
 ASSUMPTIONS = ["an empty ACL returns `start` (nothing to number) and is not judged",
                "a call that follows a raising call on the same object is judged like any other (resequence renumbers everything)",
                "partial renumbering before a raise is not judged",
